@@ -105,8 +105,83 @@ def build(spec):
         dt, shape, flat = spec[1], spec[2], spec[3]
         if dt in FLOAT_DTYPES:
             flat = [float.fromhex(x) for x in flat]
-        return np.array(flat, dtype=dt).reshape(shape)
+        return apply_layout(np.array(flat, dtype=dt).reshape(shape), spec[4] if len(spec) > 4 else 'C')
     raise ValueError('bad spec %r' % (spec,))
+
+
+# Memory layouts of an array.  The value of an array -- in the model, in the
+# property and in every comparison here -- is its LOGICAL content (index ->
+# element, i.e. dtype, shape, tolist()); the layout must not matter.
+LAYOUTS = ['C', 'F', 'T', 'strided', 'reversed', 'broadcast']
+
+
+def apply_layout(a, layout):
+    """the same logical array in another memory layout"""
+    if layout in (None, 'C') or a.ndim == 0:
+        return a
+    if layout == 'F':
+        return np.asfortranarray(a)
+    if layout == 'T':                                   # transpose view of a C-contiguous array
+        return np.ascontiguousarray(a.T).T
+    if layout == 'strided':                             # every second element of a larger array, on every axis
+        big = np.zeros(tuple(2 * n for n in a.shape), dtype=a.dtype)
+        sl = tuple(slice(None, None, 2) for _ in a.shape)
+        big[sl] = a
+        return big[sl]
+    if layout == 'reversed':                            # negative stride on the last axis
+        return np.ascontiguousarray(a[..., ::-1])[..., ::-1]
+    if layout == 'broadcast':                           # zero stride on the first axis (read-only view)
+        if a.shape[0] > 0:
+            b = np.broadcast_to(a[:1], a.shape)
+            if deep_same(a.tolist(), b.tolist()) is None:
+                return b
+        return a
+    raise ValueError('bad layout %r' % (layout,))
+
+
+def strip_layout(spec):
+    """the C-contiguous twin: same values, default layout"""
+    if spec[0] in ('list', 'set'):
+        return [spec[0], [strip_layout(x) for x in spec[1]]]
+    if spec[0] == 'array':
+        return spec[:4]
+    return spec
+
+
+def manifesting(spec):
+    """array spec whose layout differs from C order in memory: >= 2 dimensions longer than 1, non-C layout"""
+    return (spec[0] == 'array' and len(spec) > 4 and spec[4] != 'C'
+            and sum(1 for n in spec[2] if n > 1) >= 2)
+
+
+def layout_variants(spec):
+    """the same value with every array of ndim >= 2 in each memory layout (one variant per layout)"""
+    def has(sp):
+        if sp[0] in ('list', 'set'):
+            return any(has(x) for x in sp[1])
+        return sp[0] == 'array' and len(sp[2]) >= 2
+
+    def with_layout(sp, lay):
+        if sp[0] in ('list', 'set'):
+            return [sp[0], [with_layout(x, lay) for x in sp[1]]]
+        if sp[0] == 'array' and len(sp[2]) >= 2:
+            sp = sp[:4]
+            if lay == 'broadcast':
+                sp = tile_first(sp)
+            return sp + [lay]
+        return sp
+    if not has(spec):
+        return []
+    return [with_layout(spec, lay) for lay in LAYOUTS[1:]]
+
+
+def tile_first(sp):
+    """array spec whose slices along axis 0 all equal the first one (what a broadcast view can hold)"""
+    shape, flat = sp[2], sp[3]
+    if not shape or shape[0] == 0:
+        return sp
+    inner = len(flat) // shape[0]
+    return [sp[0], sp[1], shape, flat[:inner] * shape[0]]
 
 
 def spec_features(spec, out=None):
@@ -137,6 +212,10 @@ def spec_features(spec, out=None):
             out.add('array:empty-1d')
         if spec[1] in FLOAT_DTYPES and any(abs(float.fromhex(x)) == float('inf') for x in spec[3]):
             out.add('array:nonfinite')
+        if len(spec) > 4 and spec[4] != 'C':
+            out.add('array:layout=' + spec[4])
+            if manifesting(spec):
+                out.add('array:non-C-memory-order')
     return out
 
 
@@ -415,7 +494,12 @@ def build_params(ps):
     """ps = {'params': [[name, vspec]..], 'unpack': [names], 'child': None | index,
              'grandchild': optional [name, index]}"""
     P = _impl()[0]
-    p = P.create({n: build(v) for n, v in ps['params']})
+    if ps.get('via_add'):
+        p = P()
+        for n, v in ps['params']:
+            p.add(n, build(v))
+    else:
+        p = P.create({n: build(v) for n, v in ps['params']})
     for n in ps.get('unpack', []):
         p.set_unpack_parameter(n)
     if ps.get('child') is not None:
@@ -1103,7 +1187,13 @@ def gen_array(rng):
             flat.append(gen_npfloat(rng, dt)[2])
         else:
             flat.append(gen_npint(rng, dt)[2])
-    return ['array', dt, shape, flat]
+    spec = ['array', dt, shape, flat]
+    if nd >= 1 and rng.chance(0.7 if nd >= 2 else 0.3):
+        lay = rng.choice(LAYOUTS[1:])
+        if lay == 'broadcast':
+            spec = tile_first(spec)
+        spec = spec + [lay]
+    return spec
 
 
 def gen_value(rng, depth=2, allow_array=True):
@@ -1149,7 +1239,7 @@ def gen_params(rng, allow_child=True):
         else:
             v = gen_value(rng, 2)
         params.append([n, v])
-    ps = {'params': params, 'unpack': unpack, 'child': None}
+    ps = {'params': params, 'unpack': unpack, 'child': None, 'via_add': rng.chance(0.6)}
     if allow_child and unpack and rng.chance(0.5):
         # a child exists only if every unpacked parameter is non-empty
         if all(len_of(dict((n, v) for n, v in params)[n]) > 0 for n in unpack):
@@ -1203,7 +1293,7 @@ def gen_result(rng, name=None, rtype=None):
             rs['history'].append([(['int', i] if c <= 1 else ['npint', rng.choice(['int8', 'int16', 'int32', 'int64']), i]), None])
     elif t == 2:
         for _ in range(k):
-            rs['history'].append([gen_value(rng, 2, allow_array=False), None])
+            rs['history'].append([gen_value(rng, 2, allow_array=rng.chance(0.35)), None])
     elif t == 0:
         for _ in range(k):
             v = gen_number(rng)
